@@ -607,6 +607,7 @@ func cmdSearch(repo string, seed uint64, n, known int, norace bool, workers int)
 			na++
 		}
 	}
+	evals += readerAliasProbe()
 	fmt.Printf("STAT\tinputs\t%d\nSTAT\tzoo_files\t%d\nSTAT\tzoo_box_types\t%d\nSTAT\tac3_inputs\t%d\n", len(names), nz, boxTypes, na)
 	fmt.Printf("EVALS\t%d\n", evals)
 	fmt.Printf("STAT\trounds\t%d\nSTAT\trace_reports\t%d\nSTAT\tknown_rounds\t%d\nSTAT\tknown_rounds_reproduced\t%d\nSTAT\tworker_exit\t%d\n",
